@@ -35,8 +35,9 @@ Definition rreg_node (r : rreg) : option nat :=
 Record tstate := mkTS {
   ts_mode : lmode; ts_hold : bool; ts_snapped : bool; ts_dirty : bool;
   ts_ver : list nat;      (* content seen to exist while the store lock is held *)
-  ts_clr : list nat }.    (* content whose references were dropped under the exclusive lock *)
-Definition ts0 : tstate := mkTS MNone false false false [] [].
+  ts_clr : list nat;      (* content whose references were dropped under the exclusive lock *)
+  ts_dig : list nat }.    (* content whose digest reference this thread registered under its lock *)
+Definition ts0 : tstate := mkTS MNone false false false [] [] [].
 
 Definition tstep_ok (a : tstate) (st : kstep) : bool :=
   match st with
@@ -45,7 +46,8 @@ Definition tstep_ok (a : tstate) (st : kstep) : bool :=
   | KWUnlock => lmode_eqb (ts_mode a) MExcl && negb (ts_hold a) && negb (ts_snapped a) && negb (ts_dirty a)
   | KExists _ | KCreate _ => negb (lmode_eqb (ts_mode a) MNone)
   | KReg r => negb (lmode_eqb (ts_mode a) MNone) &&
-              match rreg_node r with Some k => mem k (ts_ver a) && negb (mem k (ts_clr a)) | None => true end
+              match rreg_node r with Some k => mem k (ts_ver a) && negb (mem k (ts_clr a)) | None => true end &&
+              match r with RegTag _ d => mem (d_node d) (ts_dig a) | _ => true end   (* Store.tag: digest entry first *)
   | KRegDelete _ => lmode_eqb (ts_mode a) MExcl
   | KSave SLock => negb (lmode_eqb (ts_mode a) MNone) && negb (ts_hold a)
   | KSave SSnap => ts_hold a
@@ -56,17 +58,18 @@ Definition tstep_ok (a : tstate) (st : kstep) : bool :=
   end.
 Definition tnext (a : tstate) (st : kstep) : tstate :=
   match st with
-  | KRLock => mkTS MShared (ts_hold a) (ts_snapped a) (ts_dirty a) [] []
-  | KWLock => mkTS MExcl (ts_hold a) (ts_snapped a) (ts_dirty a) [] []
-  | KRUnlock | KWUnlock => mkTS MNone (ts_hold a) (ts_snapped a) (ts_dirty a) [] []
-  | KExists k | KCreate k => mkTS (ts_mode a) (ts_hold a) (ts_snapped a) (ts_dirty a) (k :: ts_ver a) (ts_clr a)
-  | KReg _ => mkTS (ts_mode a) (ts_hold a) (ts_snapped a) true (ts_ver a) (ts_clr a)
-  | KRegDelete k => mkTS (ts_mode a) (ts_hold a) (ts_snapped a) true (ts_ver a) (k :: ts_clr a)
-  | KSave SLock => mkTS (ts_mode a) true (ts_snapped a) (ts_dirty a) (ts_ver a) (ts_clr a)
-  | KSave SSnap => mkTS (ts_mode a) (ts_hold a) true false (ts_ver a) (ts_clr a)
-  | KSave SWrite => mkTS (ts_mode a) (ts_hold a) false (ts_dirty a) (ts_ver a) (ts_clr a)
-  | KSave SUnlock => mkTS (ts_mode a) false (ts_snapped a) (ts_dirty a) (ts_ver a) (ts_clr a)
-  | KRemove _ => mkTS (ts_mode a) (ts_hold a) (ts_snapped a) (ts_dirty a) [] (ts_clr a)
+  | KRLock => mkTS MShared (ts_hold a) (ts_snapped a) (ts_dirty a) [] [] []
+  | KWLock => mkTS MExcl (ts_hold a) (ts_snapped a) (ts_dirty a) [] [] []
+  | KRUnlock | KWUnlock => mkTS MNone (ts_hold a) (ts_snapped a) (ts_dirty a) [] [] []
+  | KExists k | KCreate k => mkTS (ts_mode a) (ts_hold a) (ts_snapped a) (ts_dirty a) (k :: ts_ver a) (ts_clr a) (ts_dig a)
+  | KReg r => mkTS (ts_mode a) (ts_hold a) (ts_snapped a) true (ts_ver a) (ts_clr a)
+                   (match r with RegDig d => d_node d :: ts_dig a | _ => ts_dig a end)
+  | KRegDelete k => mkTS (ts_mode a) (ts_hold a) (ts_snapped a) true (ts_ver a) (k :: ts_clr a) []
+  | KSave SLock => mkTS (ts_mode a) true (ts_snapped a) (ts_dirty a) (ts_ver a) (ts_clr a) (ts_dig a)
+  | KSave SSnap => mkTS (ts_mode a) (ts_hold a) true false (ts_ver a) (ts_clr a) (ts_dig a)
+  | KSave SWrite => mkTS (ts_mode a) (ts_hold a) false (ts_dirty a) (ts_ver a) (ts_clr a) (ts_dig a)
+  | KSave SUnlock => mkTS (ts_mode a) false (ts_snapped a) (ts_dirty a) (ts_ver a) (ts_clr a) (ts_dig a)
+  | KRemove _ => mkTS (ts_mode a) (ts_hold a) (ts_snapped a) (ts_dirty a) [] (ts_clr a) (ts_dig a)
   end.
 (* a program respects the lock discipline from type state [a] on, and ends with every lock released *)
 Fixpoint check (a : tstate) (p : list kstep) : bool :=
